@@ -437,6 +437,8 @@ func TestC07KnownProbes(t *testing.T) {
 	if !alive {
 		return // does not reproduce (any more)
 	}
+	// the probe's session must not outlive the probe (it would go on redialing)
+	defer func() { vt.Returns(func() { sess.Close() }) }()
 	what := "a local Close issued between the loss of the connection of a redial-enabled session and its redial (the reader waits for a running handler) returns without closing anything: the redial then succeeds, the session is healthy again and a call issued after Close returned succeeds"
 	if vt.IsKnown(c07CloseIgnoredKey) {
 		rec.KnownFinding(c07CloseIgnoredKey, what)
